@@ -38,6 +38,67 @@ def _rect(R, rid):
                                   "rectangular, so execute_result indexes out of bounds or shows another group's value" % (r,), [nx.loc()])
 
 
+def _all_through(f, op, tcalls, depth):
+    """every definition that can reach the operand comes out of one of the calls in tcalls (through `?` / moves only)"""
+    if depth == 0 or op["k"] == "const":
+        return False
+    l = op["pl"]["l"]
+    cdefs = [c for c in f.calls if c.dest is not None and c.dest["l"] == l and not c.dest["p"]]
+    adefs = [s_ for i_, s_ in f.stmts() if s_["k"] == "assign" and s_["pl"]["l"] == l and not s_["pl"]["p"]]
+    if not cdefs and not adefs:
+        return False
+    for c in cdefs:
+        if c in tcalls:
+            continue
+        if re.search(r"Try>::branch$", short(c.name)) and c.args and _all_through(f, c.args[0], tcalls, depth - 1):
+            continue
+        return False
+    for s_ in adefs:
+        rv = s_["rv"]
+        if rv["k"] == "use" and rv["op"]["k"] in ("copy", "move"):
+            if not _all_through(f, {"k": "copy", "pl": {"l": rv["op"]["pl"]["l"], "p": []}}, tcalls, depth - 1):
+                return False
+        else:
+            return False
+    return True
+
+
+def _transform(R):
+    """an arithmetic wrapper around an aggregate is applied to every value of that aggregate's column, including the value used when
+    the group has no entry"""
+    P = R.prog
+    R.rule("C04.transform", "every value pushed into an aggregate's result column passed through the aggregate's transform (wrapper) closure")
+    f = R.need_fn(ENGINE + "extract_result_rows_by_column")
+    tcl = None
+    for ch in P.children.get(f.key, []):
+        if any(short(c.name).endswith("ExpressionExecutionEngine::evaluate") for c in ch.calls):
+            tcl = ch
+    if tcl is None:
+        R.violation("C04.transform", "extract_result_rows_by_column|no-transform", "no transform closure evaluating the wrapper expression found", [f.loc()])
+        return
+    # calls of that closure in f
+    tcalls = [c for c in f.calls if (c.func.get("trait") or "").startswith("core::ops::function::Fn") and
+              any(tcl.key.endswith(x) or x == tcl.raw["key"] for x in (c.func.get("closure_args") or []))]
+    pushes = [c for c in f.calls if short(c.name) == "alloc::vec::Vec::push" and (c.func.get("res_targs") or c.targs)[:1] == [V]]
+    n = 0
+    for pc in pushes:
+        lp = PR.loop_of(f, pc.bb)
+        if not lp:
+            continue
+        nxt = [c for c in f.calls if c.bb in lp[1] and re.search(r"btree::map::Values<|hash::map::Values<", short(c.name))]
+        if not nxt:
+            continue  # the GroupKey column (keys loop) has no wrapper
+        n += 1
+        if _all_through(f, pc.args[1], tcalls, 12):
+            R.ok("C04.transform", "extract_result_rows_by_column|values", "pushed value = transform(value)", pc.loc())
+        else:
+            R.violation("C04.transform", "extract_result_rows_by_column|untransformed",
+                        "a value is pushed into an aggregate's result column without passing through the aggregate's wrapper expression "
+                        "(e.g. the COUNT = 0 / NULL fallback of a group without entry): `COUNT(c) + 1` would show 0", [pc.loc()])
+    if n == 0:
+        R.violation("C04.transform", "extract_result_rows_by_column|no-values-loop", "no per-group push of aggregate values found", [f.loc()])
+
+
 def run(R):
     P = R.prog
     R.rule("C04.rect", "result table is rectangular: in every per-column loop over the group table exactly one value is pushed per group on every path")
@@ -50,6 +111,7 @@ def run(R):
     R.rule("C04.isnull", "an aggregator is NULL exactly when its running value is NULL (no comparison with a default value)")
     R.rule("C04.count", "COUNT adds exactly 1 per admitted row with a non-NULL argument")
     _rect(R, "C04.rect")
+    _transform(R)
     # ---- order
     a = P.adts.get(ENGINE.rstrip(":"))
     a = P.adts.get(AGG + "AggregateExecutionEngine")
